@@ -3,6 +3,7 @@ import GenjaxModel.Proofs.McmcKernels
 import GenjaxModel.Proofs.McmcKernelsReal
 import GenjaxModel.Proofs.GfiRegenMH   -- (c09gfi block at the end of this file)
 import GenjaxModel.Proofs.GfiRegenTie
+import GenjaxModel.Proofs.McmcInvariance
 import GenjaxModel.Proofs.GfiAssessCond
 import Mathlib.Algebra.Order.Field.Rat
 import Mathlib.Tactic.NormNum
@@ -22,10 +23,16 @@ Partial. What is proved (any linearly ordered field, any dimension, any force fi
   difference H(x,p) − H(x',−p') along the leapfrog trajectory, antisymmetric under the involution
   (leapfrogⁿ then flip), and 0 when the integrator conserves H; over ℝ both give detailed balance of
   `min(1, exp(log alpha))` with respect to π·q resp. exp(−H).
+* (invariance block, `Proofs/McmcInvariance.lean`) on every FINITE state set the kernel `mh` realises —
+  accepted proposals off the diagonal, the rejection mass on the diagonal because a rejected move
+  returns the input — has unit row sums, inherits detailed balance from its off-diagonal part and
+  therefore leaves the target invariant after any number of steps; instantiated for the textbook MH
+  kernel with non-negative (not only positive) masses and for `mh` on Cond-free GFI programs.
 What stays cited mathematics, not formalised: that the Langevin proposal x + (ε²/2)∇ + ε·N(0,I) HAS the
 Gaussian density exp(−|y − x − (ε²/2)∇|²/(2ε²))/(ε√(2π))ⁿ (the Gaussian density formula; C13 proves the
 normal density normalised), that leapfrog preserves phase-space volume (each sub-step is a shear), and
-the passage from detailed balance of densities to invariance of the posterior measure.
+the passage from detailed balance of densities to invariance of the posterior measure on CONTINUOUS
+state spaces (the finite case is proved in the invariance block).
 That the proposal actually drawn and the ratio actually applied are those of the model is established per
 (state, noise, threshold) by the correspondence run with scripted internal randomness (driver commands
 `mala-alpha`, `hmc-alpha` on quadratic targets), and given C03/C04 the model weights are the density ratios.
@@ -360,3 +367,97 @@ end Genjax
 /-! ==============================================================================================
     END work package `c09gfi`
     ============================================================================================== -/
+
+/-! ==============================================================================================
+    Invariance block (`Proofs/McmcInvariance.lean`): from detailed balance to the invariant
+    distribution, with the rejection mass on the diagonal — every finite state set.
+    ============================================================================================== -/
+namespace Genjax.Mcmc
+open Finset
+
+section C09Inv
+variable {K : Type} [Field K] {σ : Type} [DecidableEq σ]
+
+/-- the kernel of "propose-and-accept, else return the input" has rows summing to 1 -/
+theorem C09_rejection_kernel_row_sum (S : Finset σ) (A : σ → σ → K) (x : σ) (hx : x ∈ S) :
+    ∑ y ∈ S, withRejection S A x y = 1 := withRejection_row_sum S A x hx
+
+/-- detailed balance + unit row sums ⇒ `Σ_x π x · P x y = π y` -/
+theorem C09_reversible_invariant (S : Finset σ) (P : σ → σ → K) (π : σ → K)
+    (hrev : ∀ x ∈ S, ∀ y ∈ S, π x * P x y = π y * P y x) (hrow : ∀ x ∈ S, ∑ y ∈ S, P x y = 1)
+    (y : σ) (hy : y ∈ S) : pushK S P π y = π y := invariant_of_reversible S P π hrev hrow y hy
+
+/-- INVARIANCE for any kernel of the `mh` form: if the accepted-proposal part `A` is in detailed balance
+    with `π` off the diagonal then `π` is unchanged by any number `n` of steps of the completed kernel -/
+theorem C09_rejection_kernel_invariant (S : Finset σ) (A : σ → σ → K) (π : σ → K)
+    (hA : ∀ x ∈ S, ∀ y ∈ S, x ≠ y → π x * A x y = π y * A y x) (n : Nat) (y : σ) (hy : y ∈ S) :
+    (pushK S (withRejection S A))^[n] π y = π y := withRejection_invariant S A π hA n y hy
+
+end C09Inv
+
+section C09InvMH
+variable {K : Type} [Field K] [LinearOrder K] [IsStrictOrderedRing K] {σ : Type} [DecidableEq σ]
+
+/-- the MH accept probability balances for NON-NEGATIVE masses (zero-mass states included) -/
+theorem C09_mh_detailed_balance_nonneg (a b : K) (ha : 0 ≤ a) (hb : 0 ≤ b) :
+    a * min 1 (b / a) = b * min 1 (a / b) := mh_detailed_balance_nonneg a b ha hb
+
+/-- the full Metropolis–Hastings kernel (any target `π ≥ 0`, any proposal `q ≥ 0`, any finite state set):
+    a stochastic matrix, reversible, with `π` invariant after any number of steps -/
+theorem C09_mh_kernel_invariant (S : Finset σ) (π : σ → K) (q : σ → σ → K) (hπ : ∀ x, 0 ≤ π x)
+    (hq : ∀ x y, 0 ≤ q x y) :
+    (∀ x ∈ S, ∑ y ∈ S, mhKernel S π q x y = 1) ∧
+    (∀ x ∈ S, ∀ y ∈ S, π x * mhKernel S π q x y = π y * mhKernel S π q y x) ∧
+    ((∀ x ∈ S, ∑ y ∈ S, q x y ≤ 1) → ∀ x ∈ S, ∀ y, 0 ≤ mhKernel S π q x y) ∧
+    (∀ n : Nat, ∀ y ∈ S, (pushK S (mhKernel S π q))^[n] π y = π y) :=
+  ⟨fun x hx => mhKernel_row_sum S π q x hx,
+   fun x hx y hy => mhKernel_reversible S π q hπ hq x y hx hy,
+   fun hrow x hx y => mhKernel_nonneg S π q hπ hq hrow x y hx,
+   fun n y hy => mhKernel_invariant S π q hπ hq n y hy⟩
+
+/-- non-vacuity: 3 states, target (1/2, 1/3, 1/6), proposal "uniform over the other two" — one step of the
+    completed kernel from the target returns the target, computed -/
+example : (List.range 3).map (fun y => pushK (Finset.range 3)
+      (mhKernel (Finset.range 3) (fun x => if x = 0 then (1/2 : ℚ) else if x = 1 then 1/3 else 1/6)
+        (fun x y => if x = y then 0 else 1/2))
+      (fun x => if x = 0 then (1/2 : ℚ) else if x = 1 then 1/3 else 1/6) y) = [1/2, 1/3, 1/6] := by
+  decide +kernel
+
+end C09InvMH
+end Genjax.Mcmc
+
+namespace Genjax
+open Smc Smc.FinDist Mcmc
+
+section C09GfiInv
+variable {K : Type} [Field K] [LinearOrder K] [IsStrictOrderedRing K] {R : Type} [AddCommGroup R]
+variable (e : R → K) (pd : PD K) (P : Prims R) (cfg : Cfg) [DecidableEq CM]
+
+/-- INVARIANCE of `mh(trace, selection)` on a generative-function program (`_partial`: Cond-free,
+    unchanged arguments): for every finite set `S` of choice maps, each carried by a coherent trace
+    `tr x` in the shape the operations build, the kernel whose off-diagonal entries are the
+    accepted-proposal masses `mhAcc … (tr x) … x'` that `regenerateD` really produces, completed by the
+    rejection mass (a rejected `mh` returns the input trace), leaves the program's joint density
+    `assessP` invariant on `S` after any number of steps.  What is missing for the full strength of
+    the property: programs with Cond; that `S` is closed under the proposal (then the completed kernel
+    on `S` is the whole kernel) is a hypothesis the user of the theorem supplies by taking `S` = all
+    choice maps of the program's shape over the primitives' finite supports. -/
+theorem C09_mh_gfi_invariant_partial (hpd : pd.WF) (hpos : ∀ d a v, 0 ≤ pd.pm d a v)
+    (hinv : ∀ d a v, pd.pm d a v ≠ 0 → e (-(P.lp d a v)) * pd.pm d a v = 1)
+    (hsr : cfg.scanRegenDefined = true) (g : GF) (hcf : g.condFree = true) (s : Sel)
+    (args : List Val) (S : Finset CM) (tr : CM → Tr R)
+    (htr : ∀ x ∈ S, g.Coh P args (tr x) ∧ g.Canon (tr x) ∧ (tr x).choices = some x)
+    (n : Nat) (y : CM) (hy : y ∈ S) :
+    (pushK S (withRejection S fun x x' => mhAcc e pd P cfg g (tr x) s args x'))^[n]
+        (fun x => pmassOf (g.assessP pd x args)) y
+      = pmassOf (g.assessP pd y args) := by
+  apply withRejection_invariant S _ (fun x => pmassOf (g.assessP pd x args))
+  · intro x hx x' hx' _
+    obtain ⟨hc, hcan, hch⟩ := htr x hx
+    obtain ⟨hc', hcan', hch'⟩ := htr x' hx'
+    exact C09_mh_gfi_detailed_balance_partial e pd P cfg hpd hpos hinv hsr g hcf s args (tr x) (tr x')
+      x x' hc hc' hcan hcan' hch hch'
+  · exact hy
+
+end C09GfiInv
+end Genjax
